@@ -363,6 +363,10 @@ def cbmc_cmd(g, binary, backend, props=None, trace=False):
     if g.unwind is not None:
         cmd += ["--unwind", str(g.unwind), "--unwinding-assertions"]
     cmd += g.flags
+    if "--slice-formula" not in g.flags and not getattr(g, "no_slice", False):
+        # cone-of-influence slicing: constant tables that a lemma does not read (e.g. the 996-entry name-derived arrays)
+        # otherwise stay in the formula; measured 140 s -> 3 s on an Auger-yield lemma
+        cmd += ["--slice-formula"]
     cmd += BACKENDS[backend]
     if trace:
         cmd += ["--trace"]
